@@ -1,6 +1,7 @@
 package main
 
 import (
+	"path/filepath"
 	"encoding/json"
 	"flag"
 	"fmt"
@@ -54,7 +55,7 @@ func cmdRun(args []string) {
 	cfg.Params = parseParams(*params)
 	if *prop != "" {
 		var specs map[string]*PropertySpec
-		if err := loadJSON("/verif/checks.json", &specs); err == nil && specs[*prop] != nil {
+		if err := loadJSON(filepath.Join(filepath.Dir(cfg.HarnessDir), "checks.json"), &specs); err == nil && specs[*prop] != nil {
 			cfg.Rewrites = specs[*prop].Rewrites
 		}
 	}
